@@ -26,9 +26,15 @@ NormFrom(t, i) ==
   ELSE IF t[i] = CR /\ i < Len(t) /\ t[i + 1] = LF THEN <<LF>> \o NormFrom(t, i + 2)
   ELSE <<t[i]>> \o NormFrom(t, i + 1)
 NormalizeCRLF(t) == NormFrom(t, 1)
+\* the lines of a text without their line endings: split at LF, and a CR in front of that LF belongs to the
+\* line ending (the last line has no line ending)
+TrueLines(t) ==
+  LET ls == SplitLF(t) IN
+  [j \in 1..Len(ls) |-> IF j < Len(ls) /\ Len(ls[j]) > 0 /\ ls[j][Len(ls[j])] = CR THEN SubSeq(ls[j], 1, Len(ls[j]) - 1) ELSE ls[j]]
 HasCRLF(t) == \E i \in 1..(Len(t) - 1) : t[i] = CR /\ t[i + 1] = LF
 EndsWithCR(line) == Len(line) > 0 /\ line[Len(line)] = CR
 HasCRorLF(t) == \E i \in 1..Len(t) : t[i] = CR \/ t[i] = LF
+HasLF(t) == \E i \in 1..Len(t) : t[i] = LF
 \* distance between consecutive lines
 LineHeightA(lh, ch) == IF lh[1] = 0 THEN lh[2] ELSE (ch * lh[2]) \div 100
 \* a line whose painted box spans the columns xmin..xmax is aligned on x: it starts at x (Left),
@@ -45,20 +51,24 @@ AlignBoxOK(align, x, x0, w) == AlignOK(align, x, x0, x0 + w - 1)
 (* lines(): "pinned"  = text.rs:116-150 of the pinned tree: the alignment is  *)
 (*                      measured on the line as split, the trailing CR is     *)
 (*                      removed afterwards (defect D11);                      *)
-(*          "fixed"   = work/patches/D11.diff applied: the CR is removed      *)
-(*                      first.                                                *)
+(*          "fixed"   = after the repair D11: the CR is removed first;        *)
+(*          "crlf"    = after the repair D26 (current tree): ... and only     *)
+(*                      from lines that are followed by a line ending.        *)
 LineHeightT(f, ts) ==                                                       \* text.rs:109-114, text/mod.rs to_absolute
   SatAsI32(IF ts.lh[1] = 0 THEN ts.lh[2] ELSE (FontLineHeightT(f) * ts.lh[2]) \div 100)
-StripCR(line) == IF EndsWithCR(line) THEN SubSeq(line, 1, Len(line) - 1) ELSE line   \* :142-148
+StripCR(line) == IF EndsWithCR(line) THEN SubSeq(line, 1, Len(line) - 1) ELSE line   \* :126-130
+\* "crlf" (the tree after the repair D26): the CR is removed only from a line that is followed by a line ending,
+\* i.e. not from the last item of split('\n'); "pinned" and "fixed" removed it from every line
+StripOf(lines, j, variant) == IF variant = "crlf" /\ j = Len(lines) THEN lines[j] ELSE StripCR(lines[j])
 \* the j-th item of lines(): [line, p]
 LineItemT(f, sty, ts, pos, lines, j, variant) ==
   LET position == <<pos[1], pos[2] + (j - 1) * LineHeightT(f, ts)>>         \* :117, :140
-      measured == IF variant = "fixed" THEN StripCR(lines[j]) ELSE lines[j]
+      measured == IF variant = "pinned" THEN lines[j] ELSE StripOf(lines, j, variant)
       nx == MeasureStringT(f, sty, Len(measured), <<0, 0>>, ts.base).next   \* :123-127 / :131-135
       p == CASE ts.align = 0 -> position                                    \* :121
              [] ts.align = 2 -> <<position[1] - (nx[1] - 1), position[2] - nx[2]>>             \* :128
              [] OTHER -> <<position[1] - TruncDiv(nx[1] - 1, 2), position[2] - TruncDiv(nx[2], 2)>>  \* :136
-  IN [line |-> StripCR(lines[j]), p |-> p]
+  IN [line |-> StripOf(lines, j, variant), p |-> p]
 
 (* Text::draw (text.rs:157-173) as a machine over the draw_string machine.    *)
 (* State tm: li = index of the next line, next = next_position, inl = inside  *)
